@@ -160,6 +160,15 @@ pub fn programs() -> Vec<Program> {
 }
 
 fn normalize(obs: &mut crate::case::Observation) {
+    // the comparison program differs from the real one in the code of the delegate targets (their
+    // create opcode is replaced), so code hashes served by the state are not comparable
+    if let Some(reads) = obs.reads.as_mut() {
+        for r in reads.iter_mut() {
+            if let Some(info) = r.1.as_mut() {
+                info.2 = revm_primitives::B256::ZERO;
+            }
+        }
+    }
     for o in obs.outcomes.iter_mut() {
         if let TxExecutionOutcome::Executed(ExecutionResult::Halt { reason, .. }) = o {
             if matches!(reason, HaltReason::NotActivated | HaltReason::OpcodeNotFound) {
